@@ -426,6 +426,11 @@ class Parser(object):
             "name '{}' redefined".format(t[1]),
             t.lineno(1), t.lexpos(1)
         )
+        self._parser_check(
+            t[1] not in model.BUILTIN_SIZES,
+            "name '{}' is reserved for a built-in type".format(t[1]),
+            t.lineno(1), t.lexpos(1)
+        )
         t[0] = t[1]
 
     def p_positive_expression(self, t):
